@@ -18,7 +18,7 @@ const paginationPkg = "mod/internal/pagination"
 
 // C16: pagination links are real, same-site, fetchable URLs.
 func C16(p *core.Program, r *core.Report) {
-	r.Explanation = "Q5: stringutil.UnescapedString, which renders the allowed prefix scheme://host/ and every compared URL, writes the scheme, host, path and query of its argument as they are (the trailing slash of the prefix is what excludes look-alike hosts). Sink sanitisation. Q1 (PrevNext): the only append to the candidate list is unreachable once the `ParseRequestURI(href) succeeded` edge or the `href has the scheme://host/ prefix of the page` edge is removed (guard-cut); the stored link is the normalised absolute href of an anchor of the document; the function returns \"\" or the linkHref of a candidate. Q2 (PageNumber sources): every PageInfo.URL in the module is \"\", a copy of another PageInfo.URL, the current document's own URL (two reviewed sites in the detector), or - in getPageInfoAndText, by decision-path enumeration - the normalised href of an anchor that parsed, has the page's host and an http/https scheme; NextPagingURL fields only ever receive such URLs. Q3 (PageNumber sinks): PrevPage is stored only from a PageInfo.URL that is not the current page (normalised comparison) and NextPage only from NextPagingURL. Q6: every base handed to stringutil.CreateAbsoluteURL below package pagination is, through the chain of module callers, the very pageURL parameter of a FindPagination method - never a trimmed copy, a re-parsed or a loaded value."
+	r.Explanation = "Q5: stringutil.UnescapedString, which renders the allowed prefix scheme://host/ and every compared URL, writes the scheme, host, path and query of its argument as they are (the trailing slash of the prefix is what excludes look-alike hosts). Sink sanitisation. Q1 (PrevNext): the only append to the candidate list is unreachable once the `ParseRequestURI(href) succeeded` edge or the `href has the scheme://host/ prefix of the page` edge is removed (guard-cut); the stored link is the normalised absolute href of an anchor of the document; the function returns \"\" or the linkHref of a candidate. Q2 (PageNumber sources): every PageInfo.URL in the module is \"\", a copy of another PageInfo.URL, the current document's own URL (two reviewed sites in the detector), or - in getPageInfoAndText, by decision-path enumeration - the normalised href of an anchor that parsed, has the page's host and an http/https scheme; NextPagingURL fields only ever receive such URLs. Q3 (PageNumber sinks): PrevPage is stored only from a PageInfo.URL that is not the current page (normalised comparison) and NextPage only from NextPagingURL. Q6: every base handed to stringutil.CreateAbsoluteURL below package pagination is, through the chain of module callers, the very pageURL parameter of a FindPagination method - never a trimmed copy, a re-parsed or a loaded value. Q7: Apply runs the finders only for a page URL with a host: every FindPagination call (direct, through a helper of the root package or through an interface) is unreachable once the edges on which the host is known to be non-empty are removed."
 	r.NotCovered = "that the link is the right one (C17), host equality subtleties (ports, case) and what counts as the same site beyond scheme and host, the regular expressions scoring the links."
 
 	c := core.NewCanon(p)
@@ -297,16 +297,35 @@ func C16(p *core.Program, r *core.Report) {
 	if ap := mustInl(p, r, "Q7", core.ModPath+".Apply"); ap != nil {
 		cut, m := core.CutAtoms(p, ap, regexp.MustCompile(`^(.*\.OriginalURL\.Host|url\.URL\.Hostname\(.*\.OriginalURL\)) == ""$`), false)
 		n, bad := 0, 0
+		// the finders are called in Apply itself or in a helper of the root package
+		finderCallers := map[*ssa.Function]bool{}
+		for _, f := range p.ModFunctions(false) {
+			if core.FnPkgPath(f) != core.ModPath {
+				continue
+			}
+			if len(core.Calls(f, func(ci ssa.CallInstruction) bool {
+				if cc := ci.Common(); cc.IsInvoke() && cc.Method.Name() == "FindPagination" {
+					return true
+				}
+				g := core.Callee(ci)
+				return g != nil && g.Name() == "FindPagination"
+			})) > 0 {
+				finderCallers[f] = true
+			}
+		}
 		for _, call := range core.Calls(ap, func(ci ssa.CallInstruction) bool {
+			if cc := ci.Common(); cc.IsInvoke() && cc.Method.Name() == "FindPagination" {
+				return true // through an interface both finders implement
+			}
 			f := core.Callee(ci)
-			return f != nil && f.Name() == "FindPagination"
+			return f != nil && (f.Name() == "FindPagination" || finderCallers[p.Original(f)] && p.Original(f) != p.Original(ap))
 		}) {
 			n++
 			if len(m) == 0 || core.InstrReachable(ap, cut, call) {
 				bad++
 			}
 		}
-		r.Add("Q7", "Apply looks for pagination links only when the page URL has a host", p.Pos(ap.Pos()), n >= 2 && bad == 0, fmt.Sprintf("%d FindPagination calls, %d reachable without the host test; tests found: %v", n, bad, m))
+		r.Add("Q7", "Apply looks for pagination links only when the page URL has a host", p.Pos(ap.Pos()), n >= 1 && bad == 0, fmt.Sprintf("%d calls of the finders, %d reachable without the host test; tests found: %v", n, bad, m))
 	}
 
 	// ---- Q5: the same-site test of PrevNext compares with the rendering of scheme://host/ by
